@@ -20,10 +20,9 @@ import (
 	"golang.org/x/tools/go/ssa"
 )
 
-// statusFlowExceptions: keyed by function.
-var statusFlowExceptions = map[string]string{
-	"(*path/exec.Executor).executeItemOptUnwrapResult": "requires a collector (documented: found must not be nil) and its callers read the collector, never the non-failed status; PostgreSQL's executeItemOptUnwrapResult returns jperOk in the same place",
-}
+// statusFlowException: the one structural exception (checked by
+// collectorRequired, not keyed by name).
+const statusFlowException = "the collector is required here: in the same loop a list method is called on it with no test that it is not nil, so a run without a collector cannot reach this code and found/not-found is not an answer an existence check reads (the unwrap-result helper; PostgreSQL's executeItemOptUnwrapResult returns jperOk in the same place)"
 
 // loopsGuardedByEmptyMapTest: every loop header of fn is dominated by a test
 // len(map) == 0 whose true branch returns not found.
@@ -45,6 +44,57 @@ func (p *Prog) loopsGuardedByEmptyMapTest(fn *ssa.Function) bool {
 		}
 	}
 	return n > 0
+}
+
+// collectorRequired: in the loop around block at (or anywhere in fn when at is
+// nil) the collector is used unguarded — a list method is called on it where
+// no test has established that it is not nil. A run without a collector
+// would panic there, so the code is only ever reached with one, and whether
+// it reports found or not-found is not an answer an existence check reads.
+func (p *Prog) collectorRequired(fn *ssa.Function, at *ssa.BasicBlock) bool {
+	coll := p.collectorParam(fn)
+	if coll == nil {
+		return false
+	}
+	// nearest loop header dominating at
+	var header *ssa.BasicBlock
+	if at != nil {
+		for cur := at; cur != nil && header == nil; cur = cur.Idom() {
+			for _, pr := range cur.Preds {
+				if cur.Dominates(pr) {
+					header = cur
+				}
+			}
+		}
+		if header == nil {
+			return false
+		}
+	}
+	for _, b := range fn.Blocks {
+		if header != nil && !(b == header || header.Dominates(b)) {
+			continue
+		}
+		for _, ins := range b.Instrs {
+			c, ok := ins.(*ssa.Call)
+			if !ok || len(c.Call.Args) == 0 || c.Call.Args[0] != ssa.Value(coll) {
+				continue
+			}
+			sc := c.Call.StaticCallee()
+			if sc == nil || sc.Signature.Recv() == nil || namedOf(sc.Signature.Recv().Type()) != p.A.ValueList {
+				continue
+			}
+			guarded := false
+			for _, f := range factsAt(b) {
+				if t, used := collTruth(f.Cond, coll, true, nil, 0); used && ((t == triFalse && f.Truth) || (t == triTrue && !f.Truth)) {
+					guarded = true // the fact contradicts a nil collector
+				}
+			}
+			if !guarded {
+				return true
+			}
+		}
+	}
+	return false
 }
 
 func (p *Prog) collectorParam(fn *ssa.Function) *ssa.Parameter {
@@ -471,8 +521,8 @@ var ruleStatusFlow = &Rule{
 					switch {
 					case len(probs) == 0:
 						out.ok(key, p.pos(c.Pos()), fnName(fn), "`not found` is returned as such, superseded by a later evaluation, or overridden only on evidence from the collector")
-					case statusFlowExceptions[fnName(fn)] != "":
-						out.excepted(key, p.pos(c.Pos()), fnName(fn), statusFlowExceptions[fnName(fn)])
+					case p.collectorRequired(fn, c.Block()):
+						out.excepted(key, p.pos(c.Pos()), fnName(fn), statusFlowException)
 					default:
 						out.viol(key, p.pos(c.Pos()), fnName(fn), "`not found` becomes `found`: "+probs[0]+": Exists reports true where Query returns no item", probs...)
 					}
@@ -495,8 +545,8 @@ var ruleStatusFlow = &Rule{
 			switch {
 			case len(probs) == 0:
 				out.ok(key, p.pos(fn.Pos()), fnName(fn), "with a collector, every path from the entry to a constant `found` passes an evaluation that receives the collector or an append to it")
-			case statusFlowExceptions[fnName(fn)] != "":
-				out.excepted(key, p.pos(fn.Pos()), fnName(fn), statusFlowExceptions[fnName(fn)])
+			case p.collectorRequired(fn, nil):
+				out.excepted(key, p.pos(fn.Pos()), fnName(fn), statusFlowException)
 			case zeroIterExceptions[fnName(fn)] != "" && p.loopsGuardedByEmptyMapTest(fn):
 				out.excepted(key, p.pos(fn.Pos()), fnName(fn), zeroIterExceptions[fnName(fn)]+" (checked: a test len(map) == 0 returning not-found dominates every loop of the function)")
 			default:
